@@ -395,8 +395,9 @@ def handle_failures(mod, recs, max_report=4):
         small = dict(small)
         small["expect"] = {"oracle": oracle, "detail": f_["detail"], "shrunk_in": nexec,
                            "original_seed": r["seed"], "occurrences_in_batch": len(lst)}
-        os.makedirs(os.path.join(VERIF, "replays"), exist_ok=True)
-        path = os.path.join(VERIF, "replays", "%s-%d-%s.json" % (prop, r["seed"] % 10**10,
+        rdir = os.environ.get("PGSIM_REPLAY_DIR") or os.path.join(VERIF, "replays")
+        os.makedirs(rdir, exist_ok=True)
+        path = os.path.join(rdir, "%s-%d-%s.json" % (prop, r["seed"] % 10**10,
                                                                  oracle.replace("/", "_").replace("@", "_at_")))
         with open(path, "w") as fh:
             json.dump(canon_case(small), fh, indent=1, sort_keys=True)
@@ -499,8 +500,9 @@ def write_evidence(mod, tier, recs, wall, violations, known_lines, extra=None):
     }
     if extra:
         ev["coverage"].update(extra)
-    os.makedirs(os.path.join(VERIF, "evidence"), exist_ok=True)
-    path = os.path.join(VERIF, "evidence", "%s.json" % prop)
+    edir = os.environ.get("PGSIM_EVIDENCE_DIR") or os.path.join(VERIF, "evidence")
+    os.makedirs(edir, exist_ok=True)
+    path = os.path.join(edir, "%s.json" % prop)
     try:
         import jsonschema
         with open(SCHEMA) as fh:
